@@ -197,21 +197,25 @@ func (r *Run) Inconclusive(what string) {
 
 // Violation records positive evidence against the property. sig is a stable signature
 // (what fails, independent of random bytes) used for de-duplication and known-finding matching.
-func (r *Run) Violation(sig string, detail interface{}) {
+func (r *Run) Violation(sig string, detail interface{}) { r.ViolationK(sig, detail) }
+
+// ViolationK is Violation that also reports whether the signature matched a listed known finding.
+func (r *Run) ViolationK(sig string, detail interface{}) (known bool) {
 	r.mu.Lock()
 	defer r.mu.Unlock()
 	for i, re := range r.knownRe {
 		if re.MatchString(sig) {
 			r.knownHits[r.known[i].ID]++
-			return
+			return true
 		}
 	}
 	if v, ok := r.viol[sig]; ok {
 		v.Count++
-		return
+		return false
 	}
 	r.viol[sig] = &violation{Sig: sig, Detail: detail, Count: 1}
 	r.violOrder = append(r.violOrder, sig)
+	return false
 }
 
 // Violations returns the number of distinct unlisted violation signatures so far.
